@@ -180,6 +180,18 @@ CLAIMED = {
          "reciprocal-space sum and its stated precision, symmetrize_borns_and_epsilon, the Q_DIRECTION_TOLERANCE switch of DynamicalMatrixNAC.run.",
     technique="deductive verification: kernel contracts (z3), exact rational identities (sympy), induction lemmas over recursive sums",
     design="DESIGN.md section 5 C08"),
+ "C19": dict(
+    text="Scalar core and matrix conventions of the thermal / random displacement code, by symbolic execution of the Python bodies over symbolic unit "
+         "constants and exact identities (sympy): ThermalMotion._get_population equals the Bose-Einstein occupation for every T > 0 (0 at T = 0), _get_Q2 equals "
+         "hbar (2n+1)/(2 omega) in kg A^2, bose_einstein_dist equals the occupation, RandomDisplacements._get_sigma squared equals <Q^2>/AMU (quantum) and "
+         "k_B T/omega^2 (classical) above the cutoff with the unit conversions assigned in __init__, ThermalDisplacementMatrices stores (A diag|a*|)^-1 with "
+         "a* the rows of A^-1 (CIF convention), and RandomDisplacements.__init__ hands get_commensurate_points_in_integers the supercell matrix S with "
+         "A_p S = A_s in that function's column convention.",
+    note=TRUST + "NOT decided: the covariance of the vectorised sampler (_solve_ii/_solve_ij, sqrt(2) conjugate-pair factor, 1/sqrt(mN)), positive "
+         "semi-definiteness and symmetry of the displacement matrices, run_correlation_matrix / run_d2f round trip (its C kernel is under contract in C06), "
+         "the classical limit (cited). Finding E18 (population dropped below 1 K) repaired by a fix: commit.",
+    technique="deductive verification: symbolic execution of scalar Python code + exact algebraic identities (sympy); 3x3 numpy mini-model",
+    design="DESIGN.md section 5 C19"),
 }
 
 NA = {
